@@ -2,21 +2,23 @@
    statements; proofs live in Proofs/ClosenessOk.v.  Repeated in coq/pins/C06.v
    and re-checked on every run.
 
-   Shape: VERIFIED CHECKER.  The Run module evaluates, for every generated
-   graph and every source node, [check_dist] on the distance list the model's
-   search returned (observation kind 62) and [check_transpose] on the searched
-   adjacency (kind 63); the theorems below turn a passed check into "the value
-   the model reports is the closeness of that node", for every graph.
-   HOP-COUNT MODE is additionally proved without any per-case check: the model's
-   level-synchronous BFS returns exactly the reachable nodes with their hop distances
-   (loop invariant, Proofs/ClosenessBfsOk.v), its fuel is never exhausted, and the
-   value computed from it is the closeness (theorems C06_bfs_... and C06_hop_count_...).
-   Still per-case only (kinds 62/63): the weighted (heap) search — full statement
-     forall g src, sssp_weighted lw a src = Some sp -> (sp holds the true distances) —
-   and that `reverse()` yields the transposed adjacency (C15 territory). *)
+   BOTH SEARCH LOOPS OF THE MODEL ARE PROVED CORRECT BY LOOP INVARIANT, for every graph and
+   every source: the level-synchronous BFS of hop-count mode (Proofs/ClosenessBfsOk.v; also:
+   its fuel is never exhausted) and the heap search of weighted mode (Proofs/DijkstraOk.v;
+   positive integer weights, EVERY tie choice of the BinaryHeap) return exactly the reachable
+   nodes with their shortest distances; with the exactly proved formula stage the value the
+   model reports is the closeness (theorems C06_bfs_..., C06_hop_count_..., C06_dijkstra_...,
+   C06_weighted_...).
+   In addition a VERIFIED CHECKER is evaluated on every generated case: [check_dist] on the
+   distance list of every source (observation kind 62; it also checks that every weight is
+   positive) and [check_transpose] on the searched adjacency (kind 63).
+   Still per-case only (kind 63): that `reverse()` yields the transposed adjacency / that the
+   adjacency of an undirected graph is symmetric (facts about graph construction, C15/C01
+   territory).  Not proved: that the fuel of the weighted loop is never exhausted (the
+   theorems are stated for runs that return, and no run of the correspondence ever ran out). *)
 From Coq Require Import List Bool ZArith Arith QArith.
 From GV Require Import Base.Outcome Base.AMap Model.GState Model.Query Model.Derived Model.Cent Model.Brandes Model.Closeness.
-From GV Require Import Spec.ClosenessDef Proofs.ClosenessOk Proofs.ClosenessBfsOk.
+From GV Require Import Spec.ClosenessDef Proofs.ClosenessOk Proofs.ClosenessBfsOk Proofs.DijkstraOk.
 Import ListNotations.
 
 (* a vector accepted by the checker holds, for every node, the true shortest
@@ -115,3 +117,34 @@ Theorem C06_hop_count_no_fuel_exhaustion : forall (T A : Type) lw wf (tg : gstat
   adj_ok (length a) a = true -> (src < length a)%nat ->
   closeness_one lw false wf tg a (length a) src <> OutOfFuel.
 Proof. intros T A. exact (@hop_model_no_fuel_exhaustion T A). Qed.
+
+(* ---- weighted mode: the model's heap search, for every graph, source and heap tie choice ---- *)
+
+Theorem C06_dijkstra_distances : forall (g : qadj) (src : nat),
+  adj_ok (length g) g = true -> (src < length g)%nat ->
+  (forall v e, In e (get [] g v) -> exists c, snd e = inject_Z c /\ (0 < c)%Z) ->
+  forall lw sp, sssp_weighted lw g src = Some sp ->
+  forall w z, In (w, inject_Z z) sp <-> is_dist (zof g) src w z.
+Proof. exact sssp_weighted_distances. Qed.
+
+Theorem C06_weighted_closeness : forall (g : qadj) (src : nat),
+  adj_ok (length g) g = true -> (src < length g)%nat ->
+  (forall v e, In e (get [] g v) -> exists c, snd e = inject_Z c /\ (0 < c)%Z) ->
+  forall lw sp (a0 : zadj) wf,
+  sssp_weighted lw g src = Some sp ->
+  (forall v w c, In (w, c) (zrow a0 v) <-> In (v, c) (zrow (zof g) w)) -> length a0 = length g ->
+  exists cc, get_node_centrality sp (length g) wf = Ok cc /\ is_closeness a0 src wf cc.
+Proof. exact weighted_closeness. Qed.
+
+Theorem C06_weighted_model_value : forall (T A : Type) lw wf (tg : gstate T A) (a : qadj) (a0 : zadj) src nm cc,
+  adj_ok (length a) a = true -> (src < length a)%nat ->
+  (forall v e, In e (get [] a v) -> exists c, snd e = inject_Z c /\ (0 < c)%Z) ->
+  closeness_one lw true wf tg a (length a) src = Ok (nm, cc) ->
+  (forall v w c, In (w, c) (zrow a0 v) <-> In (v, c) (zrow (zof a) w)) -> length a0 = length a ->
+  is_closeness a0 src wf cc.
+Proof. intros T A. exact (@weighted_model_value T A). Qed.
+
+(* the integer view of the weighted adjacency used above is the one the checkers run on *)
+Theorem C06_integer_view : forall sv a za,
+  conv_adj true sv = Some a -> zconv_adj true sv = Some za -> zof a = za.
+Proof. exact zof_conv_adj. Qed.
